@@ -132,6 +132,10 @@ func runJob(l *Loaded, spec *Spec, job Job) (res JobResult) {
 		res.Reached = e.Reached
 		res.Witnesses = e.Witnesses
 		res.Stubs = e.Stubs
+		for f, n := range e.fnSeenPtr {
+			e.FnSeen[f.String()] += n
+		}
+		e.fnSeenPtr = map[*ssa.Function]int{}
 		res.Functions = e.FnSeen
 		res.Interned = e.internedRev
 		res.Samples = e.Samples
